@@ -25,8 +25,8 @@ from checklib import (LEAN, CACHE, VERIF, sh, log, lake_build, audit, theorems_i
 PROP = 'C18'
 SRC = os.path.join(VERIF, 'diff', 'C18.cpp')
 DRV = os.path.join(LEAN, '.lake', 'build', 'bin', 'drv_c18')
-MODS = ['GlmVerif.Props.C18', 'GlmVerif.Props.C18.Pow2U', 'GlmVerif.Props.C18.Pow2S', 'GlmVerif.Props.C18.Multiple',
-        'GlmVerif.Props.C18.Bits', 'GlmVerif.Props.C18.Rotate', 'GlmVerif.Props.C18.Interleave', 'GlmVerif.Props.C18.Gtx',
+MODS = ['GlmVerif.Props.C18', 'GlmVerif.Props.C18.Pow2U', 'GlmVerif.Props.C18.Pow2U64', 'GlmVerif.Props.C18.Pow2S', 'GlmVerif.Props.C18.Pow2S64',
+        'GlmVerif.Props.C18.Multiple', 'GlmVerif.Props.C18.Bits', 'GlmVerif.Props.C18.Bits64', 'GlmVerif.Props.C18.Rotate', 'GlmVerif.Props.C18.Interleave', 'GlmVerif.Props.C18.Gtx',
         'GlmVerif.Props.C18.Sqrt']
 HDIR = os.path.join(VERIF, 'h', PROP)
 ANCHORED = ['glm/ext/scalar_integer.inl', 'glm/ext/vector_integer.inl', 'glm/gtc/round.inl', 'glm/gtc/bitfield.inl',
